@@ -35,6 +35,7 @@ def generate(G):
          "a leaf made trackable by start_tracking() (no keep flag), the same result twice")
     hist("start_tracking_two_results", "TwoRoots", [G.leaf_st([2]), G.leaf_st([2])], ["Back(1)", "Back(2)"], "thorough",
          "start_tracking() leaves shared by two results")
+    hist("add_twice", "Add", [L([2]), L([2])], ["Back(0)", "Back(0)"], "quick", "a + b twice: both gradients sit on one shared delta buffer after the first pass")
     hist("square_twice", "Square", [L([2])], ["Back(0)", "Back(0)"], "quick", "self-product differentiated twice")
     hist("no_probe_public_api", "MulAddShare", two, ["Back(1)", "Back(0)"], "quick", "public API only (no hook probes)", probe=False)
     hist("drop_between_small", "MulAddShare", two, ["Back(1)", "DropNode(0)", "Back(1)"], "quick", "an interior handle dropped between two passes")
